@@ -21,22 +21,23 @@ num: /[0-9]+/
 %input Unit;
 
 %inject id -> Ident;
-%inject num -> Num;
 
 %interface Value;
 
 Unit -> Unit : decls+=Decl+ ;
 
 Decl -> Decl :
-    type=Name '=' value=Value ';'
-  | token=Name node=Name? ';'
+    type=TypeName '=' value=Value ';'
+  | token=Name node=Num? ';'
 ;
 
 Name -> Name : id ;
+TypeName -> TypeName : '[' id ']' ;
+Num -> Num : num ;
 
 Value -> Value :
-    num                                         -> NumValue
+    Num                                         -> NumValue
   | Name                                        -> NameValue
   | '[' (elems+=Value separator ',')* ']'       -> ListValue
-  | start=num ',' end=num pos=Name offset=Name  -> RangeValue
+  | '=' start=Num ',' end=TypeName pos=Name  -> RangeValue
 ;
